@@ -734,8 +734,8 @@ func (g *gen) runOnce(sc *scenario) (err error, retry bool) {
 			ohs = append(ohs, fmt.Sprintf("(%s, %s)", cw.Z(o.oh[j]), cw.Z(o.oh[j+1])))
 		}
 		coq := fmt.Sprintf("CHttp %d %s %s %s %s %s %s %s %s %s %s %s",
-			rq.Listener, l.callsCoq(), l.mwCoq(), cw.B(l.Direct && len(l.Mw) == 1), cw.Z(rq.M), cw.Z(rq.P), cw.L(hs), cw.ZL(rq.B),
-			cw.Z(o.st), cw.L(ohs), cw.ZL(o.ob), cw.ZLL(o.ev))
+			rq.Listener, l.callsCoq(), l.mwCoq(), cw.B(l.Direct && len(l.Mw) == 1), cw.Z(rq.M), cw.Z(rq.P), cw.L(hs), zl(rq.B),
+			cw.Z(o.st), cw.L(ohs), zl(o.ob), zll(o.ev))
 		registered := false
 		for _, c := range l.Calls {
 			if c.P == rq.P && (c.M == rq.M || (c.M == 0 && rq.M == 1)) {
@@ -899,6 +899,38 @@ func subsetsOf(n int) [][]int {
 	return r
 }
 
+// zl renders a body as a Coq list; long runs of equal bytes are run-length encoded (zrle in Run/CorrC17.v expands
+// them), so that bodies far larger than any internal buffer can be part of a case without a huge literal.
+func zl(l []int) string {
+	if len(l) < 64 {
+		return cw.ZL(l)
+	}
+	type run struct{ v, n int }
+	var runs []run
+	for _, x := range l {
+		if len(runs) > 0 && runs[len(runs)-1].v == x {
+			runs[len(runs)-1].n++
+		} else {
+			runs = append(runs, run{x, 1})
+		}
+	}
+	if len(runs)*4 > len(l) {
+		return cw.ZL(l)
+	}
+	parts := make([]string, len(runs))
+	for i, r := range runs {
+		parts[i] = fmt.Sprintf("(%s, %d)", cw.Z(r.v), r.n)
+	}
+	return "(zrle " + cw.L(parts) + ")"
+}
+func zll(ll [][]int) string {
+	parts := make([]string, len(ll))
+	for i, l := range ll {
+		parts[i] = zl(l)
+	}
+	return cw.L(parts)
+}
+
 func main() {
 	seed := flag.Int64("seed", 1, "")
 	tier := flag.String("tier", "quick", "")
@@ -1052,6 +1084,23 @@ func main() {
 			Mw: []mwc{{Kind: "logresp"}, {Kind: "rec", I: 1}, {Kind: "logreq"}}}
 		must(g.run(&scenario{Group: "bigbody", HTTP: l, HTTPS: l, H2: true,
 			Reqs: []request{{Listener: 0, M: 2, P: 0, H: []int{}, B: body}, {Listener: 1, M: 2, P: 0, H: []int{}, B: body}}}))
+	}
+
+	// bodies far above typical internal buffers/caps (64 KiB and more), as long runs so that the case stays small
+	hugeSizes := []int{70000}
+	if thorough {
+		hugeSizes = []int{70000, 300000, 1100000}
+	}
+	for _, sz := range hugeSizes {
+		body := make([]int, sz)
+		for i := range body {
+			body[i] = 97 + (i/(sz/3+1))%3
+		}
+		for _, mws := range [][]mwc{{{Kind: "logresp"}, {Kind: "rec", I: 1}, {Kind: "logreq"}}, {{Kind: "logreq"}, {Kind: "logresp"}}, {{Kind: "rec", I: 1}}} {
+			l := &listenerCfg{Calls: []route{{M: 2, P: 0, Ops: []hop{{Kind: "echo"}}}}, HasMw: true, Mw: mws}
+			must(g.run(&scenario{Group: "hugebody", HTTP: l, HTTPS: l, H2: true,
+				Reqs: []request{{Listener: 0, M: 2, P: 0, H: []int{}, B: body}, {Listener: 1, M: 2, P: 0, H: []int{}, B: body}}}))
+		}
 	}
 
 	// --- G4: gRPC: every subset of the five descriptors, with re-registration and initializers ---
